@@ -46,6 +46,9 @@ pub struct Parts {
     pub cert_extra: Vec<(&'static str, Vec<u8>)>,
     /// additional (unsigned) tags placed at the top level of the reply
     pub top_extra: Vec<(&'static str, Vec<u8>)>,
+    /// leave the NONC echo out of the reply (the original classic layout SIG, PATH, SREP, CERT, INDX:
+    /// the echo is not part of that protocol's response)
+    pub omit_nonc: bool,
 }
 
 impl Parts {
@@ -79,6 +82,9 @@ impl Parts {
             ("CERT", self.cert_bytes()),
             ("INDX", self.indx.clone()),
         ];
+        if self.omit_nonc {
+            pairs.retain(|p| p.0 != "NONC");
+        }
         pairs.extend(self.top_extra.iter().cloned());
         Msg::from_pairs(&pairs).encode()
     }
@@ -151,6 +157,7 @@ pub fn honest_parts(v: Version, id: &Identity, batch: &[Vec<u8>], i: usize, st: 
         indx: (i as u32).to_le_bytes().to_vec(),
         cert_extra: vec![],
         top_extra: vec![],
+        omit_nonc: false,
     };
     p.sign_srep(v, &id.online_seed);
     p.sign_dele(v, &id.lt_seed);
